@@ -62,6 +62,9 @@ func run(r *vk.Run) {
 	if r.Only == "" || strings.Contains(r.Only, "pull-with-values") {
 		pullWithValues(r)
 	}
+	if r.Only == "" || strings.Contains(r.Only, "caller-gone") {
+		callerGone(r)
+	}
 
 	p := &pool{r: r}
 	defer p.stop()
